@@ -367,12 +367,13 @@ impl DatagramSource {
 
     fn on_socket_error(&mut self, source: &SocketAddr, error: io::Error) {
         if let Some(a) = self.shared.associations.lock().unwrap().remove(source) {
+            // The pipe looks a closed connection up by its client -> peer key
             self.pending_closures
                 .extend(a.peers.into_iter().map(|peer| {
                     (
                         forwarder::UdpDatagramMeta {
-                            source: peer,
-                            destination: *source,
+                            source: *source,
+                            destination: peer,
                         },
                         io::Error::new(error.kind(), error.to_string()),
                     )
